@@ -15,6 +15,7 @@ mod c07;
 mod c08;
 mod c08l;
 mod c09;
+mod kport;
 mod c10;
 mod c11;
 mod c11s;
@@ -62,6 +63,9 @@ fn main() {
         "c08l" => c08l::run(&rest),
         "c08l-ranks" => c08l::run_ranks(),
         "c09" => c09::run(&rest),
+        "kport" => kport::run(&rest),
+        "kport-surface" => kport::run_surface(&rest),
+        "kport-hang" => kport::run_hang(&rest),
         "rt-ranks" => c09::run_ranks(),
         "c10" => c10::run(&rest),
         "c11" => c11::run(&rest),
